@@ -217,6 +217,11 @@ def mult_normal_power(n1: NormalPower, n2: NormalPower) -> NormalPower:
     root = math.lcm(n1.root, n2.root)
     p1 = root // n1.root
     p2 = root // n2.root
+    for n, p in ((n1, p1), (n2, p2)):
+        if p % 2 == 0 and not n1.conds.is_not_negative(n.to_expr()):
+            # moving a factor of unknown sign under an even root would lose its sign
+            return NormalPower(poly.singleton(n1.to_expr(), n1.conds) * poly.singleton(n2.to_expr(), n1.conds),
+                               poly.constant(poly.const_fraction(1), n1.conds), 1, n1.conds)
     num = unfold_power(n1.num, p1, n1.conds) * unfold_power(n2.num, p2, n1.conds)
     denom = unfold_power(n1.denom, p1, n1.conds) * unfold_power(n2.denom, p2, n1.conds)
     return NormalPower(num, denom, root, n1.conds)
